@@ -115,7 +115,7 @@ CHECKS["C15"] = {
 CHECKS["C09"] = {
     "text": "spec/Gamut.tla: the catalogue of the 36 built-in operators (gamut key, kind, default/required; implicit modifiers; an unknown key) and generators derived from it: for every (operator, key) every value of the adversarial pool of its kind (every built-in ellipsoid name for ellps keys, names from the hook), one edit exhaustively and two by simulation, alone / as a pipeline step / as macro body / as macro argument through $p, $p(d), (d) / in PROJ syntax; Mutate (drop, duplicate, replace, insert one character of the syntax alphabet or a multi-byte one) on well-formed definitions; degenerate and long definitions; coordinate tuples over a special-value pool; calls of the angular / ellipsoid / tokenizer functions on special values. The driver checks that every catalogue triple is generated. spec/Trace_C09.tla: totality of the API state machine - after a call the only actions are ret_ok / ret_err / ret_count / ret_value per an API table; there is no action for panic, crash or timeout, so a trace recorded from the real library (every call under catch_unwind in a watchdog-supervised, address-space-limited child; crashes and hangs attributed to the call in progress, recording resumed after it) is rejected exactly at such an event.",
     "design_ref": "DESIGN.md §5.9",
-    "note": "Robustness conformance over the generated grammar and pools, not arbitrary Unicode. quick: all 14 075 (operator, key, pool class) triples alone + rotating wrappings, ~5.6e5 calls, ~1 min; thorough: all triples x 6 wrappings, 1.2e5 pairwise, 6e4 mutated definitions, 4.9e5 function calls, 4.5e6 calls, ~6.5 min. A call hangs if it burns > 5 s CPU (+2 ms per tuple) without returning. Abnormal calls sharing the panic location of a TLC-rejected event are reported as its duplicates. Built-ins or gamut keys unknown to the catalogue are reported as uncovered, not judged. The binding is self-tested on every run. NTv2 and corrupted grid files: C15.",
+    "note": "Robustness conformance over the generated grammar and pools, not arbitrary Unicode. quick: all 22 305 (operator, key, pool class) triples (incl. well-formed multi-element series: all-zero, equal magnitudes, huge/huge, negative zero, maximal length) alone, series keys also inside an applied pipeline, + rotating wrappings, ~8.7e5 calls, 1-2 min; thorough: all triples x 6 wrappings, pairwise, mutated definitions, function calls, ~5.1e6 calls, ~7 min. A call hangs if it burns > 5 s CPU (+2 ms per tuple) without returning. Abnormal calls sharing the panic location of a TLC-rejected event are reported as its duplicates. Built-ins or gamut keys unknown to the catalogue are reported as uncovered, not judged. The binding is self-tested on every run. NTv2 and corrupted grid files: C15.",
     "technique": "TLA+ catalogue/generator spec + TLC (exhaustive enumeration and -simulate) feeding the real library; trace validation of the recorded call/return trace by TLC against a totality spec",
 }
 
